@@ -34,6 +34,8 @@ From Omega Require Import L5Cover.Boxes L5Cover.BoxesProofs L5Cover.MinCover
   L5Cover.CoverEnumLemmas L5Cover.CoverEnumStep L5Cover.CoverEnumExact
   L5Cover.MinCoverTotal L5Cover.CoverEnumOldLeaf L5Cover.CoverEnumRefutedTotal
   L5Cover.CoverEnumTotalLemmas L5Cover.CoverEnumTotal.
+From OmegaGen Require Import CoverBBGen CoverEnumCCGen.
+From OmegaGP Require Import CoverEnumCCBridge.
 Open Scope Z_scope.
 
 (* what C10 demands of an enumeration procedure: it returns (no error) a set
@@ -286,6 +288,66 @@ Example C10_refuted_unrepaired_mechanism :
     independent_of (0, 1) S 1 true = true.
 Proof. exact F2_mechanism. Qed.
 
+(* ---- tie T for cover_enum.py around the branch-and-bound skeleton: the
+   functions translated from the working tree on every run
+   (gen/CoverEnumCCGen.v) ARE the model's (GenProofs/CoverEnumCCBridge.v).
+   The functions above the two enumerations are generated abstracted over
+   them and are equal to the model's with the model's enumerations as
+   callees; the two enumerations are worklist loops in the code, equal to the
+   worklists below_work / unfloor_work over the model's one-level functions *)
+Theorem C10_minimize_code_is_model : forall rs pick f care,
+  enum_minimize_gen rs pick enumerate_below enumerate_unfloor
+    (2 * (length (embed rs f) + length (primes rs f care)) + 4)%nat f care =
+  enum_minimize rs pick f care.
+Proof. exact enum_minimize_gen_is_model. Qed.
+
+Theorem C10_ccfr_code_is_model : forall rs pick fuel X Y pc ub,
+  cyclic_core_fixpoint_recursive_gen rs pick enumerate_below enumerate_unfloor
+    fuel X Y pc ub = ccfr rs pick fuel X Y pc ub.
+Proof. exact cyclic_core_fixpoint_recursive_gen_is_model. Qed.
+
+Theorem C10_from_floor_code_is_model : forall core X Yfl,
+  mincovers_from_floor_gen enumerate_below core X Yfl = from_floor core X Yfl.
+Proof. exact mincovers_from_floor_gen_is_model. Qed.
+
+Theorem C10_from_unfloor_code_is_model : forall fl Y,
+  mincovers_from_unfloor_gen enumerate_unfloor fl Y = from_unfloor fl Y.
+Proof. exact mincovers_from_unfloor_gen_is_model. Qed.
+
+Theorem C10_below_and_suff_code_is_model : forall ymax cover X Y,
+  below_and_suff_gen ymax cover X Y = below_and_suff ymax cover X Y.
+Proof. exact below_and_suff_gen_is_model. Qed.
+
+Theorem C10_enumerate_below_code_is_worklist : forall fuel c X Y, NoDup c ->
+  enumerate_mincovers_below_gen fuel c X Y =
+  check (inclb c Y) (check (1 <=? length c)%nat
+    (bind (below_work fuel (length c) c X Y [] [[]]) (fun r =>
+       check (negb (is_nil (fst r))) (ok (fst r))))).
+Proof. exact enumerate_mincovers_below_gen_is_work. Qed.
+
+Theorem C10_enumerate_unfloor_code_is_worklist : forall fuel c Y,
+  enumerate_mincovers_unfloor_gen fuel c Y =
+  check (1 <=? length c)%nat
+    (bind (unfloor_work fuel (length c) c Y [] [[]]) (fun r =>
+       check (negb (is_nil (fst r))) (ok (fst r)))).
+Proof. exact enumerate_mincovers_unfloor_gen_is_work. Qed.
+
+(* the stack of the code and the level order of the model enumerate the same
+   covers (as sets), and the code returns whenever the model does *)
+Theorem C10_enumerate_below_code_refines_model : forall c X Y r, NoDup c ->
+  enumerate_below c X Y = ok r ->
+  exists f0 r',
+    (forall f, enumerate_mincovers_below_gen (f0 + f) c X Y = ok r') /\
+    (forall C, has r C <-> has r' C).
+Proof. exact enumerate_below_code_refines_model. Qed.
+
+Theorem C10_enumerate_unfloor_code_refines_model : forall c Y r,
+  enumerate_unfloor c Y = ok r ->
+  exists f0, forall f, exists r',
+    enumerate_mincovers_unfloor_gen (f0 + f) c Y = ok r' /\
+    (forall C, has r C <-> has r' C).
+Proof. exact enumerate_unfloor_code_refines_model. Qed.
+
 Print Assumptions C10_reference_correct.
 Print Assumptions C10_checker_correct.
 Print Assumptions C10_same_size.
@@ -304,3 +366,12 @@ Print Assumptions C10_ccfr_returns.
 Print Assumptions C10_full.
 Print Assumptions C10_refuted_total_xy.
 Print Assumptions C10_refuted_unrepaired.
+Print Assumptions C10_minimize_code_is_model.
+Print Assumptions C10_ccfr_code_is_model.
+Print Assumptions C10_from_floor_code_is_model.
+Print Assumptions C10_from_unfloor_code_is_model.
+Print Assumptions C10_below_and_suff_code_is_model.
+Print Assumptions C10_enumerate_below_code_is_worklist.
+Print Assumptions C10_enumerate_unfloor_code_is_worklist.
+Print Assumptions C10_enumerate_below_code_refines_model.
+Print Assumptions C10_enumerate_unfloor_code_refines_model.
